@@ -233,6 +233,8 @@ impl Folder {
     ) -> crate::Result<WriteEvent> {
         let mut access_point = self.access_point.lock().await;
         let event = access_point.create_secret(secret_data).await?;
+        #[cfg(sos_verif)]
+        sos_core::verif::crash_point("folder.create-secret.vault-done");
         let mut events = self.events.write().await;
         events.apply(std::slice::from_ref(&event)).await?;
         Ok(event)
@@ -267,6 +269,8 @@ impl Folder {
         if let Some(event) =
             access_point.update_secret(id, secret_meta, secret).await?
         {
+        #[cfg(sos_verif)]
+        sos_core::verif::crash_point("folder.update-secret.vault-done");
             let mut events = self.events.write().await;
             events.apply(std::slice::from_ref(&event)).await?;
             Ok(Some(event))
@@ -282,6 +286,8 @@ impl Folder {
     ) -> Result<Option<WriteEvent>> {
         let mut access_point = self.access_point.lock().await;
         if let Some(event) = access_point.delete_secret(id).await? {
+        #[cfg(sos_verif)]
+        sos_core::verif::crash_point("folder.delete-secret.vault-done");
             let mut events = self.events.write().await;
             events.apply(std::slice::from_ref(&event)).await?;
             Ok(Some(event))
@@ -300,6 +306,8 @@ impl Folder {
             .set_vault_name(name.as_ref().to_owned())
             .await?;
         let event = WriteEvent::SetVaultName(name.as_ref().to_owned());
+        #[cfg(sos_verif)]
+        sos_core::verif::crash_point("folder.rename.vault-done");
         let mut events = self.events.write().await;
         events.apply(std::slice::from_ref(&event)).await?;
         Ok(event)
@@ -313,6 +321,8 @@ impl Folder {
         let mut access_point = self.access_point.lock().await;
         access_point.set_vault_flags(flags.clone()).await?;
         let event = WriteEvent::SetVaultFlags(flags);
+        #[cfg(sos_verif)]
+        sos_core::verif::crash_point("folder.flags.vault-done");
         let mut events = self.events.write().await;
         events.apply(std::slice::from_ref(&event)).await?;
         Ok(event)
@@ -342,6 +352,8 @@ impl Folder {
     pub async fn set_meta(&mut self, meta: &VaultMeta) -> Result<WriteEvent> {
         let mut access_point = self.access_point.lock().await;
         let event = access_point.set_vault_meta(meta).await?;
+        #[cfg(sos_verif)]
+        sos_core::verif::crash_point("folder.meta.vault-done");
         let mut events = self.events.write().await;
         events.apply(std::slice::from_ref(&event)).await?;
         Ok(event)
